@@ -13,6 +13,7 @@ C14 — DIMACS CNF verdicts are correct; UNSAT comes with a checkable DRAT proof
 import Pumpkin.Spec.Basic
 import Pumpkin.Check.Oracle
 import Pumpkin.Check.Rup
+import Pumpkin.Model.DimacsLayout
 
 namespace Pumpkin.C14
 open Pumpkin.Rup
@@ -61,5 +62,74 @@ theorem needs_empty_clause (cnf proof : List Clause) (h : checkProof cnf proof =
 
 example : checkProof [[1, 2], [-1, 2], [1, -2], [-1, -2]] [[2], []] = true := by decide
 example : checkProof [[1, 2], [-1, 2], [1, -2]] [[2], []] = false := by decide
+
+end Pumpkin.C14
+
+/-! ### layout independence of the byte-level parser (model of `parsers/dimacs.rs`) -/
+
+namespace Pumpkin.C14
+open Pumpkin.Dimacs
+
+/-- Every file of the layout family (comments / blank space before the header, arbitrary blank runs
+in the header, literals and terminators separated by arbitrary non-empty white-space runs, comment
+lines wherever a line starts) is parsed to the formula it denotes. -/
+theorem layout_independent (pre body : List Item) (sp1 sp2 sp3 : List Nat) (nv : Nat)
+    (clauses : List (List Int))
+    (hpre : Prelude pre)
+    (h1 : sp1.all isHdrWs = true) (h2 : sp2.all isHdrWs = true) (h2ne : sp2 ≠ [])
+    (h3 : sp3.all isHdrWs = true)
+    (hno10 : (sp1 ++ sp2 ++ sp3).contains 10 = false)
+    (hnv : nv ≤ 18446744073709551615) (hnc : clauses.length ≤ 18446744073709551615)
+    (hbody : Valid { start := true, cur := [], out := [] } body)
+    (hden : (denotes body).cur = [] ∧ (denotes body).out = clauses) :
+    parseCnf (renderAll pre ++ (headerBytes sp1 nv sp2 clauses.length sp3 ++ [10] ++ renderAll body))
+      = .ok (nv, clauses) :=
+  Pumpkin.Dimacs.layout_independent pre body sp1 sp2 sp3 nv clauses hpre h1 h2 h2ne h3 hno10 hnv hnc hbody hden
+
+/-- Two layouts of the same formula are parsed to the same result. -/
+theorem two_layouts_agree (pre pre' body body' : List Item) (sp1 sp2 sp3 sp1' sp2' sp3' : List Nat) (nv : Nat)
+    (clauses : List (List Int))
+    (hpre : Prelude pre) (hpre' : Prelude pre')
+    (h1 : sp1.all isHdrWs = true) (h2 : sp2.all isHdrWs = true) (h2ne : sp2 ≠ []) (h3 : sp3.all isHdrWs = true)
+    (hno10 : (sp1 ++ sp2 ++ sp3).contains 10 = false)
+    (h1' : sp1'.all isHdrWs = true) (h2' : sp2'.all isHdrWs = true) (h2ne' : sp2' ≠ []) (h3' : sp3'.all isHdrWs = true)
+    (hno10' : (sp1' ++ sp2' ++ sp3').contains 10 = false)
+    (hnv : nv ≤ 18446744073709551615) (hnc : clauses.length ≤ 18446744073709551615)
+    (hbody : Valid { start := true, cur := [], out := [] } body)
+    (hbody' : Valid { start := true, cur := [], out := [] } body')
+    (hden : (denotes body).cur = [] ∧ (denotes body).out = clauses)
+    (hden' : (denotes body').cur = [] ∧ (denotes body').out = clauses) :
+    parseCnf (renderAll pre ++ (headerBytes sp1 nv sp2 clauses.length sp3 ++ [10] ++ renderAll body)) =
+    parseCnf (renderAll pre' ++ (headerBytes sp1' nv sp2' clauses.length sp3' ++ [10] ++ renderAll body')) := by
+  rw [layout_independent pre body sp1 sp2 sp3 nv clauses hpre h1 h2 h2ne h3 hno10 hnv hnc hbody hden,
+    layout_independent pre' body' sp1' sp2' sp3' nv clauses hpre' h1' h2' h2ne' h3' hno10' hnv hnc hbody' hden']
+
+/-- Non-vacuity: the file
+```
+c hello
+p cnf  3\t2 \r
+1 -3
+ 0 c x
+-2 0
+```
+(clause broken over two lines, a second clause, a comment line in between) is in the family. -/
+def exBody : List Item :=
+  [ .lit 1 [32], .lit (-3) [10, 32], .zero [32, 10], .comment [32, 120], .lit (-2) [32], .zero [10] ]
+
+example : Valid { start := true, cur := [], out := [] } exBody ∧
+    (denotes exBody).cur = [] ∧ (denotes exBody).out = [[1, -3], [-2]] := by
+  refine ⟨?_, rfl, rfl⟩
+  simp [exBody, Valid, Item.ok, Item.apply, isWs]
+
+/-- the model parser on the bytes of that file (`c hi\np cnf  3\t2 \r\n1 -3\n 0 \nc x\n-2 0\n`) -/
+example : (match parseCnf [99, 32, 104, 105, 10, 112, 32, 99, 110, 102, 32, 32, 51, 9, 50, 32, 13, 10,
+      49, 32, 45, 51, 10, 32, 48, 32, 10, 99, 32, 120, 10, 45, 50, 32, 48, 10] with
+    | .ok r => r == (3, [[1, -3], [-2]])
+    | .error _ => false) = true := by decide +kernel
+
+/-- outside the family the parser does reject: a comment in the middle of a line -/
+example : (match parseCnf [112, 32, 99, 110, 102, 32, 49, 32, 49, 10, 49, 32, 99, 32, 48, 10] with
+    | .ok _ => false
+    | .error e => e == .unexpectedChar 99) = true := by decide +kernel
 
 end Pumpkin.C14
